@@ -7,7 +7,8 @@ slug=$(python3 - "$out/meta.json" <<'PY'
 import json,sys,re
 m=json.load(open(sys.argv[1]))
 s=re.sub(r'[^a-z0-9]+','-',m.get('title','change').lower()).strip('-')[:48]
-print(s or 'change')
+import os
+print(os.environ.get('SEED_PREFIX','') + (s or 'change'))
 PY
 )
 dst=/verif/seeded/$id/$slug
@@ -18,6 +19,8 @@ python3 - "$out/meta.json" "$dst/meta.json" <<'PY'
 import json,sys
 m=json.load(open(sys.argv[1]))
 m['origin']='fresh sub-agent given only the property text and a scratch worktree'
+import os
+m['round']=int(os.environ.get('SEED_ROUND','1'))
 m['confirmed']='patch applies, tree builds, the 277 stable baseline tests pass with it, the demonstration fails with the change and passes without it (tools/confirm_seed.sh, scratch worktree)'
 json.dump(m,open(sys.argv[2],'w'),indent=1)
 PY
